@@ -215,6 +215,15 @@ def c09(ctx):
         for _ in range(r.randint(1, 3)):
             t = T.mutate_text(r, t)
         add('mutation', t)
+    # dash-escaped lines ("- " prefix) outside a signed block: the dash is not a tag
+    for i in range(600 if quick else 6000):
+        _, t = T.valid_manifest(r, n=r.randint(1, 4))
+        ls = t.split('\n')
+        j = r.randrange(max(1, len(ls) - 1))
+        ls[j] = r.choice(['- ', '- ', '-  ', '- - ', '-']) + ls[j]
+        add('dash-prefixed', '\n'.join(ls))
+    for tail in ['- \n', '- DATA x 0\n', '-\n', '- -\n']:
+        add('dash-after-signature', '-----BEGIN PGP SIGNED MESSAGE-----\nHash: SHA512\n\nDATA a 0\n-----BEGIN PGP SIGNATURE-----\n\nAAAA\n-----END PGP SIGNATURE-----\n' + tail)
     # every escape form over its value range
     for v in range(256):
         add('esc-x', 'DATA a\\x%02X 0\n' % v)
@@ -249,7 +258,9 @@ def c09(ctx):
                     f = l.split()
                     if not f:
                         continue
-                    if f[0] in ('TIMESTAMP', 'IGNORE') and len(f) != 2:
+                    if f[0] not in ('TIMESTAMP', 'IGNORE', 'DATA', 'MISC', 'EBUILD', 'AUX', 'MANIFEST', 'DIST'):
+                        ctx.violation('spec', f'a line whose first field {f[0]!r} is not a tag was accepted', {'text': t, 'entries': es})
+                    elif f[0] in ('TIMESTAMP', 'IGNORE') and len(f) != 2:
                         ctx.violation('spec', f'a {f[0]} line with {len(f) - 1} values was accepted', {'text': t, 'entries': es})
                     elif f[0] in ('DATA', 'MISC', 'EBUILD', 'AUX', 'MANIFEST', 'DIST') and (len(f) < 3 or len(f) % 2 == 0):
                         ctx.violation('spec', f'a {f[0]} line with {len(f) - 1} values was accepted', {'text': t, 'entries': es})
